@@ -13,6 +13,73 @@ func init() {
 	scenarios["trap.staledelete"] = scTrapStaleDelete
 	scenarios["trap.closerace"] = scTrapCloseRace
 	scenarios["trap.chanclose"] = scTrapChanClose
+	scenarios["trap.subcancel"] = scTrapSubCancel
+}
+
+// trap.subcancel (WsRpc: CtxCancel while cst = "wait" with the main loop inside MainWrite, then ExRegChan / ExDeliver): the caller
+// of a subscription gives up while the connection goroutine is stuck writing another (large) request, so the cancel notification
+// cannot be handed over yet; the subscription's response, already past the main loop, is processed only then. Whatever the order, the server-side handler must learn of
+// the cancellation (through the queued cancel request or through the subscription's context watcher).
+func scTrapSubCancel(w *World, a Args, rng *rand.Rand) error {
+	c, err := w.NewClient(ClientOpts{Name: "A", NoPing: true})
+	if err != nil {
+		return err
+	}
+	pc := w.Proxy.Last()
+	w.Rec.Gate("exec.pop@client") // the response will get as far as the client's frame executor and wait there
+	ctx, cancel := context.WithCancel(context.Background())
+	defer cancel()
+	w.Plan(3, &Plan{NoClose: true, WaitCtx: true, NoCloseMs: 1500})
+	d := make(chan struct{})
+	go func() {
+		ch, out := c.Subscribe(ctx, 3, 2, "")
+		if out == "ok" && ch != nil {
+			w.Consume(3, ch, nil, d)
+		} else {
+			close(d)
+		}
+	}()
+	if !w.Rec.WaitParked("exec.pop@client", 2*time.Second) {
+		w.Rec.OpenAll()
+		w.Quiesce(c, 1000, time.Second)
+		return nil
+	}
+	pc.Stall(C2S, true) // the peer stops reading: a large request keeps the connection goroutine inside its write
+	entered := w.Rec.Watch("wl.enter@client")
+	w.Plan(5, &Plan{})
+	bigDone := make(chan struct{})
+	go func() {
+		defer close(bigDone)
+		bctx, bcancel := context.WithTimeout(context.Background(), 6*time.Second)
+		defer bcancel()
+		c.CallBigReq(bctx, 5, 16<<20)
+	}()
+	waitCh(entered, 2*time.Second)
+	time.Sleep(100 * time.Millisecond)
+	w.Rec.Emit("CallerCancel", "call", 3)
+	cancel()
+	time.Sleep(5 * time.Millisecond)
+	w.Rec.OpenAll() // the executor goes on: the response announcing the channel is processed now
+	time.Sleep(300 * time.Millisecond)
+	pc.Stall(C2S, false) // the link flows again: whatever is queued gets written
+	waitCh(bigDone, patience(5*time.Second))
+	waitCh(d, patience(2*time.Second))
+	// the handler waits for its cancellation (and reports if it never comes)
+	dl := time.Now().Add(patience(5 * time.Second))
+	for time.Now().Before(dl) {
+		seen := false
+		for _, e := range w.Rec.Events() {
+			if (e["ev"] == "HandlerCtxDone" || e["ev"] == "CtxMissing") && e["call"] == 3 {
+				seen = true
+			}
+		}
+		if seen {
+			break
+		}
+		time.Sleep(5 * time.Millisecond)
+	}
+	w.Quiesce(c, 1000, 2*time.Second)
+	return nil
 }
 
 // trap.chanclose (WsRpc: ExLookup of a "cls" frame followed by MainCloseChans): the executor is closing a subscription's sink
